@@ -92,6 +92,17 @@ def g_int_kink(x, a=1.0):
     return abs(x - 0.3 * a) + math.sin(20 * x)
 
 
+def g1_ramp_peak(x, a=1.0, pos=0.3, w=0.02):
+    """ramp over (-1, 1) (y-range 2 once both bounds are known) with a narrow peak of height a < 2 found late:
+    the y-range then grows by less than the recompute factor 2, so older interval losses stay stale"""
+    return float(x + a * w * w / (w * w + (x - pos) ** 2))
+
+
+def g1_ramp_peak_vec(x, a=1.0, pos=0.3, w=0.02):
+    y = g1_ramp_peak(x, a, pos, w)
+    return np.array([y, 0.5 * y])
+
+
 G1 = {"smooth": g1_smooth, "peak": g1_peak, "step": g1_step, "vec": g1_vec}
 GN = {"smooth": gn_smooth, "ring": gn_ring, "vec": gn_vec}
 GINT = {"sqrt": g_int_sqrt, "peak": g_int_peak, "kink": g_int_kink}
@@ -567,6 +578,136 @@ def _first_diff(a, b, path=""):
     return f"{path}: {repr(a)[:120]} vs {repr(b)[:120]}"
 
 
+# ------------------------------------------------------------------ continued run of pickled Learner1D copies
+# "A pickled copy ... makes the same later suggestions as the original": besides the asks made directly on the
+# restored copy, original and copy are told the same further results and must keep agreeing.  This is demanded
+# only in the regime where the unchanged code is deterministic: both end points evaluated and every further value
+# inside the current y bounding box, so that _scale does not change and neither learner can reach its recompute
+# threshold (the original has _scale <= factor * _oldscale after every tell, the copy _oldscale = _scale).
+def continued_cfg(rng, wrap):
+    cfg = {"kind": "l1d", "continued": True, "vecf": rng.random() < 0.3, "a": rng.choice([0.9, 1.3, 1.7, 1.9]),
+           "pos": rng.choice([0.3, -0.45, 0.62, 0.05]), "w": rng.choice([0.02, 0.01, 0.04]),
+           "loss": rng.choice(["default", "default", "triangle"]), "n": rng.randint(12, 40), "wrap": wrap}
+    if wrap == "balancing":
+        cfg["strategy"] = rng.choice(["loss_improvements", "npoints", "cycle"])
+        cfg["poss"] = [cfg["pos"], -cfg["pos"]]
+    return cfg
+
+
+def continued_make(cfg):
+    import adaptive
+    from adaptive.learner import learner1D as m1
+
+    def one(pos):
+        f = functools.partial(g1_ramp_peak_vec if cfg["vecf"] else g1_ramp_peak, a=cfg["a"], pos=pos, w=cfg["w"])
+        if cfg["wrap"] == "datasaver":
+            f = WithExtra(f)
+        loss = None if cfg["loss"] == "default" else m1.triangle_loss
+        return adaptive.Learner1D(f, (-1.0, 1.0), loss_per_interval=loss)      # default _recompute_losses_factor = 2
+
+    if cfg["wrap"] == "balancing":
+        return adaptive.BalancingLearner([one(p) for p in cfg["poss"]], strategy=cfg["strategy"])
+    if cfg["wrap"] == "datasaver":
+        return adaptive.DataSaver(one(cfg["pos"]), arg_picker=operator.itemgetter("y"))
+    return one(cfg["pos"])
+
+
+def l1d_children(l, cfg):
+    return list(l.learners) if cfg["wrap"] == "balancing" else [l.learner if cfg["wrap"] == "datasaver" else l]
+
+
+def stale_intervals(k):
+    """number of stored interval losses that differ from the loss function at the current scale"""
+    return sum(1 for (a, b), v in k.losses.items() if not same_val(float(k._get_loss_in_interval(a, b)), float(v)))
+
+
+def inside_box(k, y):
+    lo, hi = k._bbox[1]
+    return bool(np.all(np.asarray(y) >= np.asarray(lo)) and np.all(np.asarray(y) <= np.asarray(hi)))
+
+
+def continued_case(chk, cfg, seed, stats):
+    rng = random.Random(seed)
+    l = continued_make(cfg)
+    f = l.function
+    first = True
+    while l.npoints < cfg["n"] * (2 if cfg["wrap"] == "balancing" else 1):
+        pts, _ = l.ask(2 * len(l1d_children(l, cfg)) if first else rng.randint(1, 6))    # first round: the end points
+        first = False
+        pts = list(pts)
+        rng.shuffle(pts)
+        for p in pts:
+            l.tell(p, f(p))
+    kids = l1d_children(l, cfg)
+    stale = sum(stale_intervals(k) for k in kids)
+    stats["continued_cases"] += 1
+    stats["continued_with_stale_losses"] += stale > 0
+    name = name_of(cfg)
+    replay = {"cfg": cfg, "seed": seed}
+    for mech in ("pickle", "cloudpickle"):
+        ser = pickle if mech == "pickle" else cloudpickle
+        o = ser.loads(ser.dumps(l))          # the "original" continues from an identical twin so that every
+        c = ser.loads(ser.dumps(l))          # mechanism starts from the same state; see below for the real one
+        o = l if mech == "cloudpickle" else o
+        if mech == "pickle":
+            # the genuine original is used for the last mechanism; for the first one a pickled twin stands in
+            # only if it is indistinguishable now -- otherwise compare against the genuine original right away
+            if not (same_val(float(o.loss()), float(l.loss())) and same_val(data_of(o, cfg_plain(cfg)), data_of(l, cfg_plain(cfg)))):
+                o = l
+        r2 = random.Random(seed + 1)
+        for step in range(8):
+            try:
+                cand = list(o.ask(3, tell_pending=False)[0])
+            except Exception:
+                break
+            kk = l1d_children(o, cfg)
+            pick = None
+            for p in cand + [_mid(o, cfg, r2) for _ in range(4)]:
+                if p is None:
+                    continue
+                child = kk[p[0]] if cfg["wrap"] == "balancing" else kk[0]
+                x = p[1] if cfg["wrap"] == "balancing" else p
+                if x in child.data:
+                    continue
+                y = o.function(p)
+                yy = y["y"] if isinstance(y, dict) else y
+                if inside_box(child, yy):
+                    pick = (p, y)
+                    break
+            if pick is None:
+                break
+            for lr in (o, c):
+                lr.tell(*pick)
+            stats["continued_steps"] += 1
+            lo_, lc_ = float(o.loss()), float(c.loss())
+            ao = [o.ask(n, tell_pending=False) for n in (1, 5)]
+            ac = [c.ask(n, tell_pending=False) for n in (1, 5)]
+            ok_loss = same_val(lo_, lc_)
+            ok_ask = all(points_equal(list(x[0]), list(y[0]), 0) and close_val(x[1], y[1], 0) for x, y in zip(ao, ac))
+            if not (ok_loss and ok_ask):
+                what = f"loss() {lc_!r} vs original {lo_!r}" if not ok_loss else f"ask = {_short(ac)} vs original {_short(ao)}"
+                chk.fail(f"C13:{name}:{mech} continued run differs",
+                         f"{name} {cfg}: {sum(k.npoints for k in kids)} results ({stale} stale interval losses at pickling time), "
+                         f"{mech}, then the same {step + 1} further result(s) told to original and copy (all inside the y bounding "
+                         f"box, so no rescale): {what}", dict(replay, mech=mech, steps=step + 1))
+                return
+
+
+def cfg_plain(cfg):
+    return {"kind": "l1d", "wrap": cfg["wrap"]}
+
+
+def _mid(l, cfg, rng):
+    kk = l1d_children(l, cfg)
+    i = rng.randrange(len(kk))
+    xs = sorted(kk[i].data)
+    if len(xs) < 2:
+        return None
+    j = rng.randrange(len(xs) - 1)
+    x = xs[j] + (xs[j + 1] - xs[j]) * rng.choice([0.5, 0.25, 0.75])
+    return (i, x) if cfg["wrap"] == "balancing" else x
+
+
 def learner2d_usable():
     import adaptive
     try:
@@ -618,7 +759,8 @@ def plan(chk):
 def run(chk: Check) -> int:
     chk.prove(["theories/Props/C13.vo"], THEOREMS)
     stats = {"roundtrips": 0, "loss_compared": 0, "asks_compared": 0, "skipped_pending": 0,
-             "pickle_closure_loss_not_picklable": 0, "twin_not_identical": 0, "ask_raises": 0, "skipped_other_finding": {}, "usable": {}, "histories": 0}
+             "pickle_closure_loss_not_picklable": 0, "twin_not_identical": 0, "ask_raises": 0, "skipped_other_finding": {}, "usable": {}, "histories": 0,
+             "continued_cases": 0, "continued_with_stale_losses": 0, "continued_steps": 0}
     cases, ok2d, why = plan(chk)
     if not ok2d:
         chk.fail(SIG_F7, f"Learner2D cannot be driven past its corner points on this platform ({why}); "
@@ -639,6 +781,19 @@ def run(chk: Check) -> int:
             chk.sample({"learner": nm, "cfg": {k: v for k, v in cfg.items() if k != "kind"}, "mechanisms": MECHS})
         if sum(1 for f in chk.failures if f["signature"] not in (SIG_F7, SIG_CYCLE)) > 40:
             break
+    # continued run of pickled Learner1D copies (and wrappers around Learner1D), default factor 2
+    for wrap, count in ((None, 40 if chk.quick else 400), ("balancing", 10 if chk.quick else 80), ("datasaver", 10 if chk.quick else 80)):
+        for k in range(count):
+            rng = chk.rng("continued", wrap, k)
+            cfg = continued_cfg(rng, wrap)
+            seed = rng.randrange(2 ** 31)
+            continued_case(chk, cfg, seed, stats)
+            chk.note_case(("continued", cfg, seed), True)
+            if sum(1 for f in chk.failures if "continued run" in f["signature"]) > 10:
+                break
+    if stats["continued_cases"] and stats["continued_with_stale_losses"] * 2 < stats["continued_cases"]:
+        chk.broke("machinery", "continued-run histories rarely carry stale interval losses at pickling time",
+                  {k: stats[k] for k in ("continued_cases", "continued_with_stale_losses")})
     for nm, n in stats["usable"].items():
         if n == 0:
             chk.broke("machinery", f"no usable history for {nm}", stats["skipped_other_finding"])
@@ -659,7 +814,10 @@ def run(chk: Check) -> int:
              "with nothing pending, then save/load gzip and raw into new(), pickle, cloudpickle, new().copy_from(); data compared "
              "exactly (arrays elementwise, extra_data, per-child data), loss() exactly for pickles and to 1e-12 for file/copy_from "
              "where the state is a function of the data, next ten suggestions exactly for pickles / to 1e-10 otherwise "
-             "(AverageLearner1D exempt); histories that hit an internal error of another property's finding (F1, F5, F12) are "
+             "(AverageLearner1D exempt); continued run: Learner1D with the default factor 2 (and BalancingLearner / DataSaver "
+             "around it) on a ramp with a late narrow peak (so that stale interval losses exist at pickling time, counted), "
+             "pickled, then original and copy are told the same further results whose values lie inside the y bounding box "
+             "(no rescale possible) and loss() and ask(1), ask(5) must stay identical after every tell; histories that hit an internal error of another property's finding (F1, F5, F12) are "
              "skipped and counted; non-trivial = usable history with at least 5 results",
         assumptions=["cloudpickle / gzip / the file system round-trip Python values faithfully (trusted)",
                      "Learner1D restored state beyond the data dictionary: oracle only (C13_l1d `_partial`)"])
@@ -690,6 +848,13 @@ def replay(doc) -> int:
             continue
         if "bounds" in cfg:
             cfg["bounds"] = tuple(cfg["bounds"])
+        if cfg.get("continued"):
+            sink = Sink()
+            st = {"continued_cases": 0, "continued_with_stale_losses": 0, "continued_steps": 0}
+            continued_case(sink, cfg, r["seed"], st)
+            print("replayed continued run", name_of(cfg), cfg, st, "->", sink.failures[:1] or "oracle silent")
+            bad += bool(sink.failures)
+            continue
         sink = Sink()
         stats = {"roundtrips": 0, "loss_compared": 0, "asks_compared": 0, "skipped_pending": 0,
                  "pickle_closure_loss_not_picklable": 0, "twin_not_identical": 0, "ask_raises": 0, "skipped_other_finding": {}}
